@@ -159,3 +159,14 @@ Proof.
   simpl. repeat split; intros a b Ha Hb;
     repeat (destruct a as [|a]; [|try lia]); repeat (destruct b as [|b]; [|try lia]); try lia; vm_compute; reflexivity.
 Qed.
+
+(* ---------------------------------------------------------------- parafac's pre-loop callback under mask + sparsity *)
+(* witness: X = [3; 1; 1; 4], L = 0, the last entry unobserved, one non-zero allowed.  error_calc imputes the tensor to [3; 1; 1; 0]
+   and takes the sparse component [3; 0; 0; 0] of that residual (squared error 2); the sparse component handed to the
+   callback comes from the raw residual [3; 1; 1; 4], i.e. [0; 0; 0; 4], whose squared error on the imputed tensor is 27 *)
+Theorem cb0_mask_sparse_refuted :
+  exists (X L m : tensor Z) (card : nat),
+    fst (cb0_reported Zops X L m card) <> fst (cb0_error_of_handed Zops X L m card).
+Proof.
+  exists (mk [4] [3;1;1;4]%Z), (mk [4] [0;0;0;0]%Z), (mk [4] [1;1;1;0]%Z), 1. vm_compute. discriminate.
+Qed.
